@@ -1,4 +1,4 @@
-"""MMX/SSE part of the assembler-family checks C02, C03 and C09: the generated corpus of checks/asmfam.py stops at the integer and x87 maps
+"""MMX/SSE part of the assembler-family checks C02, C03, C09 and C19: the generated corpus of checks/asmfam.py stops at the integer and x87 maps
 (the hand-written spec decoder covers no MMX/SSE); here the reference is GNU objdump / GNU as, executed.
 
 Items: for every MMX/SSE table row x mandatory prefix {none, 66, F2, F3} x operand form {register, [eax], [esp+16], [ebx+esi*4+0x100], absolute}
@@ -73,7 +73,24 @@ def _work(job):
         n += 1
         c, crash = asmfam.safe_asm(txt)
         cand_all.append(c)
-    if prop == 'C09':
+    if prop == 'C19':
+        for (b, txt, tn, r), c0 in zip(keep, cand_all):
+            if c0 is None: continue
+            s0 = set(c0)
+            line = re.sub(r'\s+', ' ', txt)
+            vs = [('upper-regs', re.sub(r'\b(xmm\d|mm\d|e[abcd]x|e[sd]i|e[sb]p|[abcd]x|[abcd]l)\b', lambda m: m.group(1).upper(), line)),
+                  ('lower-ptr', line.lower()),
+                  ('spaces', re.sub(r',\s*', ' ,   ', line).replace('[', '[ ').replace(']', ' ]').replace('+', ' + ') + '  '),
+                  ('tabs', line.replace(' ', '\t', 1)),
+                  ('hex', re.sub(r', (\d+)$', lambda m: ', 0x%X' % int(m.group(1)), line))]
+            for tag, v in vs:
+                if v == line: continue
+                c, _ = asmfam.safe_asm(v)
+                if c is None:
+                    fail('sse-%s-rejected' % tag, tn, b.hex(), '%r assembles but its spelling %r is rejected' % (line, v))
+                elif set(c) != s0:
+                    fail('sse-%s-differs' % tag, tn, b.hex(), '%r and %r assemble to different sets (%s vs %s)' % (line, v, sorted(x.hex() for x in s0)[:3], sorted(x.hex() for x in c)[:3]))
+    elif prop == 'C09':
         # both renderings are valid GNU as input for the same instruction (compared through objdump), and re-parse with miasmX
         for syn in ('intel', 'att'):
             texts = []
@@ -130,6 +147,11 @@ def replay(prop, hexbytes, clause):
     c, _ = asmfam.safe_asm(txt)
     print('%s: %r; objdump %r; asm -> %s' % (hexbytes, txt, r, [x.hex() for x in (c or [])] if c is not None else 'error'))
     bad = False
+    if prop == 'C19':
+        n, groups = _work(('C19', 0, 1))
+        hit = [k for k in groups if k[0] == clause]
+        for k in hit[:5]: print(k, groups[k][2])
+        return 1 if hit else 0
     if prop == 'C09':
         ta = ins.__str__('att_syntax binutils').strip()
         gi = asmgen.gnu_as([txt], 'intel')[0]; ga = asmgen.gnu_as([ta], 'att')[0]
